@@ -208,7 +208,15 @@ def check(ctx, run):
                     has_end = True
                 if e["op"] == "<":
                     has_end = True
-            cls = f.cls if f.kind == "ctor" else None      # (a scan in a helper is shared: it needs its own end test)
+            cls = f.cls if f.kind == "ctor" else None      # (a scan in a helper is shared: it needs its own end test ...
+            host, hostnode = f, eq
+            if cls is None and f.kind == "function" and f.d.get("static"):
+                # ... unless it is a file-local helper with one call site, in a constructor: then the scan is that constructor's)
+                cs_ = [(g, c) for g in prog.functions.values() for c in g.calls() if (c.get("callee") or {}).get("mn") == f.mn]
+                if len(cs_) == 1 and cs_[0][0].kind == "ctor":
+                    host, hostnode = cs_[0]
+                    cls = host.cls
+                    run.analysed(host)
             printable_scan = "printable" in lhs.lower() or "printable" in rhs.lower()
             inst = "%s scan %s == %s" % (cls or f.name, short(lhs, 50), short(rhs, 50))
             if has_end:
@@ -216,9 +224,9 @@ def check(ctx, run):
             elif cls in EXC and not printable_scan:
                 # frozen exception: every folded operand case of the assert entry points that builds this failure has
                 # operands that differ under the constructor's comparison, or one operand NULL (guarded inside the ctor)
-                pos = f.where_enclosing(eq) or f.where_enclosing(cond)
-                inner = facts_at(f, pos, subst=True)
-                pn_ = [q["name"] for q in f.params]
+                pos = host.where_enclosing(hostnode) or (f.where_enclosing(cond) if host is f else None)
+                inner = facts_at(host, pos, subst=True)
+                pn_ = [q["name"] for q in host.params]
                 guarded_inside = any(k in pn_ and v for k, v in inner) and len([1 for k, v in inner if k in pn_ and v]) >= 2
                 sites, okx = [], True
                 from .C03 import assert_family
